@@ -153,6 +153,7 @@ omit [DecidableEq M] in
 theorem tableOK_new {g : Game P M} (he : EvalOK g) (cfg : Cfg) : TableOK g (Eng.new g cfg) :=
   ⟨tableSound_new cfg, tableAtt_new cfg, tableGood_new he cfg⟩
 
+omit [DecidableEq M] in
 theorem sat_map_snd {α : Type} {x : Except Err (α × Eng M)} {Q : Eng M → Prop} (h : Sat x (fun y => Q y.2)) :
     Sat (x.map (·.2)) Q := by
   intro s hs
@@ -223,5 +224,62 @@ theorem runEntries_ofHistory (g : Game P M) (cfg : Cfg) :
         rw [hrest] at hr
         cases hr
         exact ih s1 rs1 _ hrest
+
+
+/-! ### the final call -/
+
+/-- `GetMove` after any history of calls (core of `C05.getMove_verdict`) -/
+theorem getMove_core {g : Game P M} (hg : GameOK g) (he : EvalOK g) (hinj : HashOK g) (hmv : HashMovesOK g)
+    {cfg : Cfg} (hpr : Precise cfg.opts) (hw : 0 ≤ cfg.randomizeWindow)
+    (h : Calls P M) (hh : ∀ x ∈ h, OrderOK x.2.2 ∧ x.2.2.Monotone)
+    (p : P) (hov : g.over p = false) {o : Oracle M} (hord : OrderOK o)
+    (s : Eng M) (h1 : runEntries g cfg h (Eng.new g cfg) = .ok s)
+    (m : M) (s' : Eng M) (h2 : getMove g cfg o p s = .ok (m, s')) :
+    ∃ pv v st s1, analyze g cfg o p s = .ok ((pv, v, st), s1) ∧
+      (v > Facts.winThreshold → Win g p ∧ Keeps g p m) ∧
+      (v < -Facts.winThreshold → Loss g p) ∧
+      (NoCancel o →
+        (negamax g st.depth.toNat p > Facts.winThreshold → v > Facts.winThreshold ∧ Keeps g p m) ∧
+        (negamax g st.depth.toNat p < -Facts.winThreshold → v < -Facts.winThreshold)) := by
+  have hok := runEntries_ok hg he hinj hmv hpr hw h _ hh (tableOK_new he cfg) _ h1
+  obtain ⟨pv, v, st, s1, ha, _⟩ := getMove_inner h2
+  obtain ⟨_, _, hatt⟩ := getMove_att hg he hinj hmv hpr hord hw p s hok.sound hok.att _ h2
+  obtain ⟨hv, hk⟩ := hatt pv v st s1 ha
+  refine ⟨pv, v, st, s1, ha, fun hw' => ⟨hv.1 hw', hk hw'⟩, fun hl => hv.2 hl, ?_⟩
+  intro hnc
+  obtain ⟨_, hc1, hc2⟩ := analyze_covers hg he hinj hpr hnc hord p hov s hok.good _ ha
+  dsimp only at hc1 hc2
+  constructor
+  · intro hn
+    have hvw : v > Facts.winThreshold := by
+      apply Classical.byContradiction; intro hnot; have := hc1 (by omega); omega
+    exact ⟨hvw, hk hvw⟩
+  · intro hn
+    apply Classical.byContradiction; intro hnot; have := hc2 (by omega); omega
+
+/-- `AnalyzeAll` after any history of calls (core of `C05.analyzeAll_verdict`) -/
+theorem analyzeAll_core {g : Game P M} (hg : GameOK g) (he : EvalOK g) (hinj : HashOK g) (hmv : HashMovesOK g)
+    {cfg : Cfg} (hpr : Precise cfg.opts) (hw : 0 ≤ cfg.randomizeWindow)
+    (h : Calls P M) (hh : ∀ x ∈ h, OrderOK x.2.2 ∧ x.2.2.Monotone)
+    (p : P) (hov : g.over p = false) {o : Oracle M} (hord : OrderOK o)
+    (s : Eng M) (h1 : runEntries g cfg h (Eng.new g cfg) = .ok s)
+    (lines : List (List M)) (v : Int) (st : Stats) (s' : Eng M)
+    (h2 : analyzeAll g cfg o p s = .ok ((lines, v, st), s')) :
+    (∃ pv s1, analyze g cfg o p s = .ok ((pv, v, st), s1)) ∧
+    (v > Facts.winThreshold → Win g p ∧ ∀ l ∈ lines, HeadKeeps g p l) ∧
+    (v < -Facts.winThreshold → Loss g p) ∧
+    (NoCancel o →
+      (negamax g st.depth.toNat p > Facts.winThreshold → v > Facts.winThreshold) ∧
+      (negamax g st.depth.toNat p < -Facts.winThreshold → v < -Facts.winThreshold)) := by
+  have hok := runEntries_ok hg he hinj hmv hpr hw h _ hh (tableOK_new he cfg) _ h1
+  obtain ⟨_, _, hv, ⟨pv, s1, ha⟩, hl⟩ := analyzeAll_att hg he hinj hmv hpr hord p s hok.sound hok.att _ h2
+  dsimp only at hv ha hl
+  refine ⟨⟨pv, s1, ha⟩, fun hw' => ⟨hv.1 hw', hl hw'⟩, fun hlo => hv.2 hlo, ?_⟩
+  intro hnc
+  obtain ⟨_, hc1, hc2⟩ := analyze_covers hg he hinj hpr hnc hord p hov s hok.good _ ha
+  dsimp only at hc1 hc2
+  constructor
+  · intro hn; apply Classical.byContradiction; intro hnot; have := hc1 (by omega); omega
+  · intro hn; apply Classical.byContradiction; intro hnot; have := hc2 (by omega); omega
 
 end Search
